@@ -12,37 +12,43 @@
   M  `Ctx.checkModel`           (Model/CheckModel.lean), port of the pinned heuristic `check_model`.
 
   The full-strength statement  `∀ M p, M.accepts p = true ↔ UPA Σ v11 p ∧ EDC T p`  is FALSE for the
-  pinned algorithm in both directions (known finding C15-F0).  What is proved about M:
+  algorithm in both directions (known finding C15-F0), for the pinned code and for every combination of the
+  proposed repairs.  `M.fx : Fixes` says which repairs (notes/fixes/C15-*.patch) the modelled tree contains;
+  the harness detects it on the tree under test.  Theorems without a hypothesis on `M.fx` hold for every
+  variant.
 
-  exact (accepts ⇔ UPA ∧ EDC), any size, both versions
+  exact (accepts ⇔ UPA ∧ EDC), any size, both versions, every variant
     * `checkModel_refines_partial`            every flat choice `{lo,hi}` of plain element particles
     * `checkModel_refines_flat_seq_partial`   every flat sequence `{lo,1}` of plain element particles
     * `checkModel_empty_root_exact`           every model whose root has `maxOccurs = 0` (former C15-F2)
-  exactness stops there — witnesses by `decide`, replayed on the real code on every run
-    * flat sequence that repeats              `checkModel_flat_seq_repeated_counterexample`  (a, a?){1,2}
-                                              `checkModel_missed_counterexample`             (a, a*)+
-    * one level of nesting, all groups {1,1}  `checkModel_seq_of_choices_counterexample`     (a, (c?|b), b)
-                                              `checkModel_choice_of_seqs_counterexample`     ((a,a) | a)
-  one direction, on ALL models (any nesting, wildcards, substitution groups, both versions)
-    * `checkModel_edc_error_sound`            an EDC refusal is a real EDC violation
-    * `checkModel_accepts_edc_direct`         an accepted model has no two visited same-named elements of
-                                              different types
-    * `checkModel_upa_error_overlap`          a UPA refusal names two different visited, overlapping,
-                                              type-consistent particles
-    * `checkModel_v11_element_wildcard_never_error`   XSD 1.1: never an element/wildcard pair
-  neither "refuses ⇒ violation" nor "accepts ⇒ deterministic" holds globally:
-    * refusals (kind UPA) are wrong from depth 3 on even when no group repeats
-                                              `checkModel_false_alarm_norepeat_counterexample` (((a)?,c),a)
-                                              `checkModel_false_alarm_counterexample`   (b,(b{1,2}){1,2},a)*
-    * acceptances are wrong: the four witnesses above, and for XSD 1.0 substitution groups
-      `checkModel_edc_missed_counterexample`, `checkModel_indirect_member_missed_counterexample`, and for
-      shared particle objects `checkModel_shared_particle_missed_counterexample` (C15-F3).
+  refusal ⇒ violation, every variant
+    * `checkModel_flat_seq_refusal_sound`     every flat sequence, ANY root range (repeating or not)
+    * `checkModel_edc_error_sound`            ALL models: an EDC refusal is a real EDC violation
+  structure of refusals / acceptances on ALL models, every variant
+    * `checkModel_upa_error_overlap`, `checkModel_accepts_edc_direct`,
+      `checkModel_v11_element_wildcard_never_error`
+  where exactness stops — `decide` witnesses, replayed on the real code on every run with the outcome the
+  theorem states for the detected variant (corpus/C15/theorem-witnesses.json)
+    pinned algorithm only (`ctxOf … {}`), removed by a repair (`checkModel_repairs_effective`):
+      `checkModel_missed_counterexample` (a,a*)+, `checkModel_flat_seq_repeated_counterexample` (a,a?){1,2}
+                                                                          [repeated-sequence repair]
+      `checkModel_shared_particle_missed_counterexample` (G,G), G=(a?)    [shared-group repair, C15-F3]
+      `checkModel_edc_missed_counterexample` XSD 1.0 (h, s:int)           [EDC repair]
+      `checkModel_local_head_false_alarm_counterexample` XSD 1.0 (h:string | s)   [head guard]
+    every variant (`∀ fx`):
+      `checkModel_flat_seq_repeated_patched_counterexample` (a,a,a*)*     accepted, nondeterministic
+      `checkModel_seq_of_choices_counterexample` (a,(c?|b),b), `checkModel_choice_of_seqs_counterexample`
+      ((a,a)|a)                                                           accepted, nondeterministic
+      `checkModel_indirect_member_missed_counterexample` XSD 1.0 (h|d)    accepted, nondeterministic
+      `checkModel_false_alarm_counterexample` (b,(b{1,2}){1,2},a)*, `checkModel_false_alarm_norepeat_counterexample`
+      (((a)?,c),a)                                                        refused, deterministic
 -/
 import XsVerif.Lemmas.Upa
 import XsVerif.Lemmas.CheckModel
 import XsVerif.Lemmas.CheckModelFlat
 import XsVerif.Lemmas.CheckModelSeq
 import XsVerif.Lemmas.CheckModelErr
+import XsVerif.Lemmas.CheckModelSeqRep
 
 namespace XsVerif.Props.C15
 open XsVerif XsVerif.CM XsVerif.Wildcard
@@ -500,6 +506,49 @@ theorem checkModel_refines_flat_seq_partial {M : Ctx} {sigma : List QN} {T : Typ
       (fun c hc => n2 c (by simp [hc])) (n1 (a, x) (by simp)) (by simp [competing, hxy, hnoany])
       ((lang_flatSeq_iff h.rootLo items (by simp)).mpr w1) ((lang_flatSeq_iff h.rootLo items (by simp)).mpr w2)
 
+/-! ### flat sequences that repeat: refusals are sound (every variant of the algorithm)
+
+  For `sequence(e1 … en){lo,hi}` with any root range other than `maxOccurs = 0` the port — the pinned
+  algorithm and every combination of the proposed repairs — refuses only models that violate UPA: an
+  in-iteration conflict (`Bad1`) or, when the sequence repeats, a wrap-around conflict (`Bad2`: the last
+  particle of the pair once more, or a new iteration that starts with the first one).  The converse fails for
+  the pinned algorithm (`checkModel_flat_seq_repeated_counterexample`, removed by the repeated-sequence repair:
+  `checkModel_repairs_effective`) and, for names that occur three times, for every variant
+  (`checkModel_flat_seq_repeated_patched_counterexample`). -/
+
+/-- guard of `checkModel_flat_seq_refusal_sound` -/
+structure FragSeqRep15 (M : Ctx) (sigma : List QN) (r lo : Nat) (rhi : Option Nat) (items : List FItem) : Prop where
+  ctx : SeqCtxR M r rhi items
+  rootHi0 : rhi ≠ some 0
+  rootOcc : Rx.loLeHi lo rhi = true
+  names : ∀ it ∈ items, it.name ∈ sigma
+  occ : ∀ it ∈ items, Rx.loLeHi it.lo it.hi = true
+
+/-- **On flat sequences a refusal is always right**: for every sequence group `{lo,hi}` (hi ≠ 0, repeating or
+    not) whose members are plain element particles (any number, any occurrence ranges, both XSD versions,
+    equal names referring to the same declaration) and for every variant `M.fx` of the algorithm: if the port
+    of `check_model` refuses the model, the model violates Unique Particle Attribution. -/
+theorem checkModel_flat_seq_refusal_sound {M : Ctx} {sigma : List QN} {r lo : Nat} {rhi : Option Nat}
+    {items : List FItem} (h : FragSeqRep15 M sigma r lo rhi items)
+    (hacc : M.accepts (flatSeq r lo rhi items) = false) : ¬ UPA sigma M.v11 (flatSeq r lo rhi items) := by
+  intro hupa
+  obtain ⟨p1, it, midl, jt, p2, hsplit, hil, hjl, hn, hb⟩ := h.ctx.refused_bad h.rootHi0 lo hacc
+  obtain ⟨u, v1, v2, a, x, y, hxy, w1, w2⟩ :=
+    flatSeq_conflict (r := r) (lo := lo) h.occ h.ctx.ids h.rootHi0 h.rootOcc hsplit hil hjl hn hb
+  have hnoany : ∀ z, isAnyId (flatSeq r lo rhi items) z = false := by
+    intro z
+    simp only [isAnyId, flatSeq, Particle.leaves, leaves_mkParticles, List.any_eq_false, List.mem_map]
+    rintro l ⟨k, _, rfl⟩
+    simp [FItem.leaf, Leaf.isAny]
+  have names : ∀ {w : List ASym}, Rx.Lang mm (flatSeq r lo rhi items).toRx w → OverNames sigma w := by
+    intro w hw c hc
+    obtain ⟨k, hk, rfl⟩ := lang_flatSeq_syms hw c hc
+    exact h.names k hk
+  have n1 := names w1
+  have n2 := names w2
+  exact hupa u v1 v2 a x y (fun c hc => n1 c (by simp [hc])) (fun c hc => n1 c (by simp [hc]))
+    (fun c hc => n2 c (by simp [hc])) (n1 (a, x) (by simp)) (by simp [competing, hxy, hnoany]) w1 w2
+
 /-! ### M deviates from S (known finding C15-F0): concrete witnesses, replayed on the real code -/
 
 def qa : QN := ⟨"urn:t", "a"⟩
@@ -731,7 +780,7 @@ theorem checkModel_repairs_effective (v11 : Bool) (fx : Fixes) :
     variant although after `a a` the next `a` belongs to the third particle or, in a new iteration, to the
     first one — `paths` keeps only the last particle of a name, the third `a` is never compared with the
     first.  (On the patched tree no deviation was observed on repeated flat sequences in which no name occurs
-    more than twice, and no false alarm at all; see `checkModel_flat_seq_repeated_refusal_sound_patched` for
+    more than twice, and no false alarm at all; see `checkModel_flat_seq_refusal_sound` for
     the proved direction.) -/
 theorem checkModel_flat_seq_repeated_patched_counterexample (v11 : Bool) (fx : Fixes) :
     (ctxOf v11 4 pSeqRep3 [ei 1 qa, ei 2 qa, ei 3 qa] fx).accepts pSeqRep3 = true ∧ ¬ UPA [qa] v11 pSeqRep3 := by
@@ -817,6 +866,19 @@ example : Frag15 (ctxOf false 4 (fragP (some 1)) fragInfos) [qa, qb] fragT 0 0 n
 /-- the hypotheses of `checkModel_accepts_edc_direct` are met by a model with two same-named elements -/
 example : (ctxOf false 4 pOk [(1, { name := qa, ty := 0 }), (2, { name := qb, ty := 0 }), (3, { name := qa, ty := 0 })]).accepts pOk = true ∧
     (1 ∈ ((ctxOf false 4 pOk []).visited pOk).map (·.1) ∧ 3 ∈ ((ctxOf false 4 pOk []).visited pOk).map (·.1)) := by decide
+
+/-- `(a, a?){1,2}` with the repeated-sequence repair: a member of the fragment of
+    `checkModel_flat_seq_refusal_sound` that is refused (wrap-around conflict); `(a?, a)+` is a member that every
+    variant refuses (in-iteration conflict) -/
+def repItems : List FItem := [⟨1, qa, 1, some 1⟩, ⟨2, qa, 0, some 1⟩]
+example : FragSeqRep15 (ctxOf false 3 pSeqRep [ei 1 qa, ei 2 qa] { repSeq := true }) [qa] 0 1 (some 2) repItems ∧
+    pSeqRep = flatSeq 0 1 (some 2) repItems ∧
+    (ctxOf false 3 pSeqRep [ei 1 qa, ei 2 qa] { repSeq := true }).accepts pSeqRep = false :=
+  ⟨⟨⟨by decide, by decide, by decide, by decide, by decide, by decide, by decide, by decide, by decide,
+    by decide, by decide, by decide⟩, by decide, by decide, by decide, by decide⟩, rfl, by decide⟩
+def repItems2 : List FItem := [⟨1, qa, 0, some 1⟩, ⟨2, qa, 1, some 1⟩]
+example (fx : Fixes) : (ctxOf false 3 (flatSeq 0 1 none repItems2) [ei 1 qa, ei 2 qa] fx).accepts (flatSeq 0 1 none repItems2) = false := by
+  all_fx fx
 
 /-- the hypothesis of `checkModel_upa_error_overlap` is met by `(((a)?, c), a)` (UPA error between particles 3 and 5) -/
 example : ((ctxOf false 6 pDeep [ei 3 qa, ei 4 qc, ei 5 qa]).checkModel pDeep).err = some (.upa 3 5) := by decide
